@@ -192,6 +192,15 @@ func ruleErrPropagate(c *Ctx, r *R) {
 					if cal := staticCallee(&y.Call); cal != nil && cal.Name() == "Close" && cal.Signature.Recv() != nil && isNamedType(cal.Signature.Recv().Type(), "stream", "PipeSender") && len(y.Call.Args) == 2 && y.Call.Args[1] == e {
 						return ss(3), true
 					}
+					// handed to a local function literal / in-package helper that delivers it to the sink (fail(err) →
+					// sender.Close(err); record(err) → out.err = err)
+					if helper := staticCallee(&y.Call); helper != nil && helper.Blocks != nil && rootFn(helper).Pkg == rootFn(fn).Pkg {
+						for ai, a := range y.Call.Args {
+							if a == e && ai < len(helper.Params) && paramReachesSink(helper, helper.Params[ai], 0) {
+								return ss(3), true
+							}
+						}
+					}
 				}
 				return 0, false
 			}
@@ -483,4 +492,35 @@ func ruleCtxArmPure(c *Ctx, r *R) {
 			r.violated(name+"|ctx-arm", fn.Pos(), "no ctx.Done() arm")
 		}
 	}
+}
+
+// paramReachesSink: the helper hands its parameter p (an error) to an error sink - PipeSender.Close(p), a store into a field
+// named err - (the helper is the delivery mechanism; a "first error wins" test inside it is the same benign drop as inline).
+func paramReachesSink(helper *ssa.Function, p *ssa.Parameter, depth int) bool {
+	found := false
+	instrs(helper, func(b *ssa.BasicBlock, i int, in ssa.Instruction) {
+		switch x := in.(type) {
+		case *ssa.Store:
+			if x.Val == ssa.Value(p) {
+				if fa, ok := x.Addr.(*ssa.FieldAddr); ok && fieldName(fa.X.Type(), fa.Field) == "err" {
+					found = true
+				}
+			}
+		case *ssa.Call:
+			cc := &x.Call
+			if cal := staticCallee(cc); cal != nil {
+				if cal.Name() == "Close" && cal.Signature.Recv() != nil && isNamedType(cal.Signature.Recv().Type(), "stream", "PipeSender") && len(cc.Args) == 2 && cc.Args[1] == ssa.Value(p) {
+					found = true
+				}
+				if depth < 2 && cal.Blocks != nil && rootFn(cal).Pkg == rootFn(helper).Pkg {
+					for ai, a := range cc.Args {
+						if a == ssa.Value(p) && ai < len(cal.Params) && paramReachesSink(cal, cal.Params[ai], depth+1) {
+							found = true
+						}
+					}
+				}
+			}
+		}
+	})
+	return found
 }
